@@ -177,6 +177,29 @@ class StreamsDriver:
             self._run(cl)
         elif name == "Abandon":
             res.append(("abandoned", 0, 0, 0, 0))
+        elif name == "Dangle":
+            # the pull is requested - the awaitable exists - and never runs: dropped unawaited (k odd) or polled with a
+            # zero timeout, which cancels it before its first step (k even)
+            self.kdangle = getattr(self, "kdangle", 0) + 1
+            if self.kdangle % 2:
+                def dg():
+                    import warnings
+                    with warnings.catch_warnings():
+                        warnings.simplefilter("ignore", RuntimeWarning)
+                        aw = self.stream.__anext__()
+                        close = getattr(aw, "close", None)
+                        if close is not None:
+                            close()
+                        del aw
+                    res.append(("dangled", 0, 0, 0, 0))
+            else:
+                async def dg():
+                    try:
+                        await asyncio.wait_for(self.stream.__anext__(), 0)
+                        res.append(("exc", 0, 0, 0, 0))
+                    except TimeoutError:
+                        res.append(("dangled", 0, 0, 0, 0))
+            self._run(dg)
         else:
             raise ValueError(name)
         w.loop.quiesce()
@@ -213,7 +236,7 @@ def gen_trace(rnd, max_items=8):
                 else:                                    # exhausted, waiting for the spawned task
                     ch = ["EndSpawned", "EndSpawned", "CancelPull"]
             else:
-                ch = ["Pull"] * 8 + ["Close"]
+                ch = ["Pull"] * 8 + ["Close"] + (["Dangle"] if sst in ("fresh", "open") else [])
                 if sst == "open":
                     ch += ["Abandon"]
             if spawned == "run" and "EndSpawned" not in ch:
@@ -224,7 +247,7 @@ def gen_trace(rnd, max_items=8):
             ops += 1
             k = o["res"][0]
             sst = {"pending": "pulling", "item": "open", "stop": "ended" if sst in ("fresh", "open", "pulling") else sst,
-                   "err": "ended", "closed": "closed", "cancelled": "cancelled", "abandoned": sst}.get(k, "dead")
+                   "err": "ended", "closed": "closed", "cancelled": "cancelled", "abandoned": sst, "dangled": sst}.get(k, "dead")
             tr.append(dict(ev=name, args=[], obs=dict(res=list(o["res"]), cons=list(o["cons"]), s1=o["s1"], call=list(o["call"]), sp=o["sp"])))
             if sst == "dead":
                 break
@@ -235,24 +258,28 @@ def gen_trace(rnd, max_items=8):
 
 TRACE_KW = dict(
     variables=["place", "n", "ending", "nested", "slow", "kind", "gsp", "hc", "made", "pos", "sst", "s1done", "called", "sp", "nops", "obs"],
-    constants=dict(MaxItems=8, Bug='"none"'),
+    constants=dict(MaxItems=8, Bug='"none"', Poll="TRUE"),
     config_vars=["place", "n", "ending", "nested", "slow", "kind", "gsp", "hc", "made"],
-    actions=dict(Pull=0, Release=0, EndSpawned=0, CancelPull=0, Close=0, Abandon=0),
+    actions=dict(Pull=0, Release=0, EndSpawned=0, CancelPull=0, Close=0, Abandon=0, Dangle=0),
     invariants=["ItemsInOrder", "GenSeesCreation", "CallSeesStreamScope", "ConsumerIntact", "StreamScopeCompletes",
                 "SpawnedSettled"])
 
 
 def run(rep, work, tier, seed):
     mi = 2 if tier == "quick" else 3
-    leg_m(rep, work, SPEC, f"mc_{tier}", cfg_text(dict(MaxItems=mi + 1, Bug="none"), spec="Spec", invariants=INVS, properties=PROPS),
+    leg_m(rep, work, SPEC, f"mc_{tier}", cfg_text(dict(MaxItems=mi + 1, Poll=False, Bug="none"), spec="Spec", invariants=INVS, properties=PROPS),
           expect_actions=["Pull", "Release", "EndSpawned", "CancelPull", "Close", "Abandon"])
     if tier == "thorough":
         for bug, inv in (("reorder", ["ItemsInOrder"]), ("swallow_error", ["EndsWithError", "ItemsInOrder"]),
                          ("never_completes", ["StreamScopeCompletes"]), ("cancel_leaks_scope", ["StreamScopeCompletes"]), ("call_outside_scope", ["CallSeesStreamScope"]), ("close_awaits_spawned", ["SpawnedSettled"])):
             leg_mutant(rep, work, SPEC, f"mutant_{bug}",
-                       cfg_text(dict(MaxItems=2, Bug=bug), spec="Spec", invariants=INVS, properties=PROPS), inv)
-    leg_r(rep, work, SPEC, f"conf_{tier}", cfg_text(dict(MaxItems=mi + 1, Bug="none"), invariants=INVS),
+                       cfg_text(dict(MaxItems=2, Poll=False, Bug=bug), spec="Spec", invariants=INVS, properties=PROPS), inv)
+    leg_r(rep, work, SPEC, f"conf_{tier}", cfg_text(dict(MaxItems=mi + 1, Poll=False, Bug="none"), invariants=INVS),
           StreamsDriver, world=True)
+    # pulls that are requested and never run (an awaitable made and dropped, a poll with a zero timeout), on short streams
+    poll = dict(MaxItems=1 if tier == "quick" else 2, Poll=True, Bug="none")
+    leg_m(rep, work, SPEC, f"poll_mc_{tier}", cfg_text(poll, spec="Spec", invariants=INVS, properties=PROPS), expect_actions=["Dangle", "Close"])
+    leg_r(rep, work, SPEC, f"poll_conf_{tier}", cfg_text(poll, invariants=INVS), StreamsDriver, world=True)
     # leg T: longer streams (up to 8 items, suspension before a random item) with random operation sequences
     rnd = random.Random(seed * 31 + 11)
     traces = gen_traces(rep, lambda: gen_trace(rnd), 150 if tier == "quick" else 2000)
